@@ -42,7 +42,7 @@ TF = 'chainables.tree_fns'
 
 
 def run(ctx: Ctx):
-  for r in (r9, r1, r2, r3, r4, r5, r6, r7, r8):
+  for r in (r9, r1, r2, r3, r4, r5, r6, r7, r8, r10):
     ctx.guard(r)
 
 
@@ -230,8 +230,15 @@ def r2(ctx: Ctx):
   R = _names(fi)
   buf, sizes, held = R['buffer'], R['sizes'], R['held']
   txt = unparse(fi.node)
-  conc = [s for s in walk_no_nested(fi.node) if isinstance(s, ast.Assign)
-          and unparse(s.value) == f'map(_concat, {buf})']
+  def _concat_all(v):
+    # map(_concat, <buffers>), possibly materialised: list(map(...)) / tuple(map(...)) / [_concat(c) for c in <buffers>]
+    while isinstance(v, ast.Call) and unparse(v.func) in ('list', 'tuple') and len(v.args) == 1:
+      v = v.args[0]
+    if isinstance(v, (ast.ListComp, ast.GeneratorExp)) and len(v.generators) == 1 and not v.generators[0].ifs:
+      return (unparse(v.generators[0].iter) == buf and isinstance(v.elt, ast.Call) and unparse(v.elt.func) == '_concat'
+              and len(v.elt.args) == 1 and unparse(v.elt.args[0]) == unparse(v.generators[0].target))
+    return unparse(v) == f'map(_concat, {buf})'
+  conc = [s for s in walk_no_nested(fi.node) if isinstance(s, ast.Assign) and _concat_all(s.value)]
   sl = [s for s in walk_no_nested(fi.node) if isinstance(s, ast.Assign)
         and 'mit.sliced' in unparse(s.value) and 'n=batch_size' in unparse(s.value)]
   loops = [l for l in walk_no_nested(fi.node) if isinstance(l, ast.For)
@@ -604,10 +611,41 @@ def r7(ctx: Ctx):
   ctx.floor(rule, 1, n)
 
 
+def r10(ctx: Ctx, scope=('utils.iter_utils', 'chainables.tree_fns', 'chainables.transform'), rule='R-C19-10', floor=4):
+  ctx.rule(rule, '"emits, column by column, exactly the concatenation of the input rows": a one-shot iterator held in a local'
+           ' (a map/zip/filter object, a generator) — such as the lazily concatenated columns of a flush — is traversed by at'
+           ' most ONE full consumer on any path (for-loop, comprehension, yield from, or a call that walks all of it). A'
+           ' second traversal sees nothing: a diagnostic line that iterates the columns first leaves the flush with no'
+           ' columns, and the batches are dropped — but only while that diagnostic is enabled (two-traversal analysis of'
+           ' mlmverif.onepass over single-definition one-shot locals; branch arms that exclude each other are told apart)')
+  from mlmverif.onepass import OnePass
+  op = OnePass(ctx.repo)
+  n = 0
+  for mod in scope:
+    mi = ctx.repo.module(mod)
+    fns = list(mi.functions.values()) + [m for c in mi.classes.values() for m in c.methods.values()]
+    for fi in fns:
+      k, res = op.analyse_twice(fi)
+      if not k:
+        continue
+      n += k
+      if not res:
+        ctx.ok(rule, fi, f'{fi.qualname}: {k} one-shot local(s), each traversed once per path', fi.node)
+      for node, msg in res:
+        ctx.fail(rule, fi, f'{fi.qualname}: one-shot local traversed once per path', msg, node=node)
+  ctx.floor(rule, floor, n)
+
+
 from mlmverif.selfcheck import B, OK  # noqa: E402
 
 _F = 'utils/iter_utils.py'
 VARIANTS = [
+    B('debug-line-walks-the-concatenated-columns', 'utils/iter_utils.py',
+      "      concated = map(_concat, column_buffer)\n", "      concated = map(_concat, column_buffer)\n      if logging.level_debug():\n        logging.debug('chainable: %s', f'flushing {[_batch_size(c) for c in concated]} rows')\n", 'R-C19-10'),
+    OK('debug-line-walks-the-buffer-not-the-map', 'utils/iter_utils.py',
+       "      concated = map(_concat, column_buffer)\n", "      concated = map(_concat, column_buffer)\n      if logging.level_debug():\n        logging.debug('chainable: %s', f'flushing {[len(c) for c in column_buffer]} chunks')\n"),
+    OK('columns-materialised-before-two-uses', 'utils/iter_utils.py',
+       "      concated = map(_concat, column_buffer)\n", "      concated = list(map(_concat, column_buffer))\n      if logging.level_debug():\n        logging.debug('chainable: %s', f'flushing {[_batch_size(c) for c in concated]} rows')\n"),
     B('column-buffers-bounded', 'utils/iter_utils.py',
       '  column_buffer = [[] for _ in range(num_columns)]\n  batch_sizes = np.zeros(num_columns, dtype=int)\n  exhausted = False',
       '  column_buffer = [collections.deque(maxlen=batch_size) for _ in range(num_columns)]\n  batch_sizes = np.zeros(num_columns, dtype=int)\n  exhausted = False', 'R-C19-9'),
